@@ -1,1 +1,140 @@
-CHECKS = {}
+"""Engine C properties: C08 C09 C10 (in-place vector conversion)."""
+import json
+import os
+
+import common
+
+MODE = {"C08": "convert", "C09": "fail", "C10": "refuse"}
+
+
+def absorb(ctx, report, label):
+    ctx.evaluations += report.get("evaluations", 0)
+    ctx.distinct += report.get("distinct_nontrivial", 0)
+    ctx.merge_counters(report.get("counters", {}), label + ".")
+    for s in report.get("samples", []):
+        if len(ctx.samples) < 8:
+            ctx.samples.append("[%s] %s" % (label, s))
+    for v in report.get("violations", []):
+        ctx.violation(v["kind"], "[%s] %s | case: %s" % (label, v["detail"], v["case"]),
+                      "%s %s %s" % (ctx.pid, v["kind"], v["case"]), {"case": v["case"], "engine": "vecmon", "run": label})
+    extra = report.get("violations_total", 0) - len(report.get("violations", []))
+    if extra > 0:
+        ctx.count(label + ".violations_not_listed", extra)
+
+
+def native(ctx, mode, max_len, random, max_random_len):
+    for profile in ("dev", "release"):
+        binary = common.cargo_build("vecmon", profile)
+        jobs = []
+        nsh = 8
+        for s in range(nsh):
+            jobs.append(("%s-%d" % (profile, s), [binary, mode, "--seed", str(ctx.seed), "--max-len", str(max_len), "--random", str(random),
+                                                 "--max-random-len", str(max_random_len), "--shard", str(s), "--nshards", str(nsh)], None, None))
+        for (label, rc, out, err, secs) in ctx.run_parallel(jobs, 1800):
+            rep = common.parse_json_tail(out)
+            if rc is None:
+                ctx.inconclusive.append("vecmon %s %s timed out" % (mode, label))
+            elif rc != 0 or rep is None:
+                # the monitors never abort by themselves: a crash of the driver is an event of its own
+                ctx.violation("driver-crashed", "vecmon %s %s exited with status %s: %s" % (mode, label, rc, (err or "")[-600:]),
+                              "%s driver-crashed %s" % (ctx.pid, profile), {"cmd": "vecmon %s" % mode, "stderr": (err or "")[-2000:]})
+            else:
+                absorb(ctx, rep, "native-" + profile)
+        ctx.subruns.append({"engine": "vecmon " + mode, "profile": profile, "exhaustive_up_to_length": max_len,
+                            "random_cases_per_type_pair": random, "max_random_length": max_random_len})
+
+
+def miri(ctx, mode, max_len, flags, label):
+    common.miri_prepare("vecmon", flags=flags)
+    nsh = 15
+    jobs = [common.miri_job("vecmon", [mode, "--seed", ctx.seed, "--max-len", max_len, "--random", 2, "--max-random-len", 9,
+                                       "--shard", s, "--nshards", nsh], flags=flags) for s in range(nsh)]
+    clean = 0
+    for (lab, rc, out, err, secs) in ctx.run_parallel(jobs, 3600):
+        finding = common.classify_miri(err)
+        rep = common.parse_json_tail(out)
+        if rc is None:
+            ctx.inconclusive.append("Miri run `%s` timed out" % lab)
+            continue
+        if finding and finding[0] != "unsupported":
+            ctx.violation("miri-" + finding[0], "[%s] %s | %s | run: vecmon %s" % (label, finding[1], finding[2], lab),
+                          "%s miri %s %s" % (ctx.pid, finding[1][:160], finding[2][:160]),
+                          {"cmd": "cd harness && MIRIFLAGS='%s %s' cargo +nightly miri run -p vecmon -- %s" % (common.MIRI_BASE_FLAGS, flags, lab),
+                           "stderr": (err or "")[-3000:]})
+            continue
+        if rc != 0 or rep is None:
+            ctx.inconclusive.append("Miri run `%s` ended with status %s without a report: %s" % (lab, rc, (err or "")[-300:]))
+            continue
+        clean += 1
+        absorb(ctx, rep, label)
+    ctx.count(label + ".processes_clean", clean)
+    ctx.subruns.append({"engine": "vecmon " + mode, "interpreter": "Miri " + (flags or "(Stacked Borrows)") + " " + common.MIRI_BASE_FLAGS,
+                        "leak_check": True, "exhaustive_up_to_length": max_len, "processes": nsh})
+
+
+def valgrind(ctx, mode, max_len):
+    binary = common.cargo_build("vecmon", "release")
+    nsh = 8
+    jobs = []
+    for s in range(nsh):
+        jobs.append(("vg-%d" % s, ["valgrind", "-q", "--error-exitcode=9", "--leak-check=full", "--errors-for-leak-kinds=definite,indirect",
+                                   binary, mode, "--seed", str(ctx.seed), "--max-len", str(max_len), "--random", "20", "--max-random-len", "300",
+                                   "--shard", str(s), "--nshards", str(nsh)], None, None))
+    clean = 0
+    for (label, rc, out, err, secs) in ctx.run_parallel(jobs, 3600):
+        rep = common.parse_json_tail(out)
+        if rc is None:
+            ctx.inconclusive.append("valgrind run %s timed out" % label)
+        elif rc == 9 or "== Invalid" in (err or "") or "definitely lost" in (err or ""):
+            first = [l for l in (err or "").splitlines() if "Invalid" in l or "lost" in l or "free" in l][:1]
+            ctx.violation("memcheck", "[valgrind] %s | run: vecmon %s %s" % (first[0] if first else "error", mode, label),
+                          "%s memcheck %s" % (ctx.pid, (first[0] if first else "")[12:120]),
+                          {"cmd": "valgrind --leak-check=full %s %s --max-len %d" % (binary, mode, max_len), "stderr": (err or "")[-3000:]})
+        elif rc != 0 or rep is None:
+            ctx.inconclusive.append("valgrind run %s ended with status %s" % (label, rc))
+        else:
+            clean += 1
+            absorb(ctx, rep, "memcheck")
+    ctx.count("memcheck.processes_clean", clean)
+    ctx.subruns.append({"engine": "vecmon " + mode, "sanitizer": "valgrind memcheck --leak-check=full on the release binary", "exhaustive_up_to_length": max_len})
+
+
+def run(ctx):
+    mode = MODE[ctx.pid]
+    if ctx.pid == "C10":
+        native(ctx, mode, 4 if ctx.quick else 8, 0, 0)
+        miri(ctx, mode, 2 if ctx.quick else 4, "", "miri-sb")
+        if not ctx.quick:
+            miri(ctx, mode, 3, "-Zmiri-tree-borrows", "miri-tb")
+            valgrind(ctx, mode, 4)
+        ctx.exhaustive = True
+        return
+    if ctx.quick:
+        native(ctx, mode, 6, 150, 2000)
+        miri(ctx, mode, 3, "", "miri-sb")
+    else:
+        native(ctx, mode, 9, 4000, 3000)
+        miri(ctx, mode, 4 if ctx.pid == "C08" else 5, "", "miri-sb")
+        miri(ctx, mode, 3, "-Zmiri-tree-borrows", "miri-tb")
+        valgrind(ctx, mode, 5)
+
+
+def replay(path):
+    d = json.load(open(path))
+    print("case: %s" % d.get("case", d.get("cmd")))
+    print("re-run: %s" % d.get("cmd", "./check %s quick (the case is part of the exhaustive enumeration)" % d["property"]))
+    return 0
+
+
+ASSUME = ["the watch in the global allocator sees every deallocation / reallocation of the vector's block (the wrapper forwards to the system allocator)",
+          "the converter closures of the harness drop their input and never unwind except where a panic is injected",
+          "Miri executes unoptimised MIR; the optimised build is covered by the native release runs and memcheck only"]
+
+CHECKS = {
+    "C08": {"run": run, "replay": replay, "level": "exploration", "assumptions": ASSUME,
+            "rule": "cases = every length 0..=L x every converted/abandoned pattern x 3 converter kinds (ignore / read / replace the previous output) x spare capacity x both entry points, for 15 element type pairs (plain, heap-owning, zero-size, odd-sized, over-aligned, 256-byte, mixed droppiness), complete for the stated L, plus seeded random long vectors; native debug + release, Miri, memcheck (thorough); distinct by case text; non-trivial = length >= 2 with at least one converted and one abandoned element"},
+    "C09": {"run": run, "replay": replay, "level": "fault_enumeration", "assumptions": ASSUME,
+            "rule": "fault enumeration: every length 1..=L x every failure position x 4 failure kinds (error return, panic holding the input, panic after dropping the input, panic after building the output) x every converted/abandoned pattern of the preceding elements x both entry points x 15 element type pairs, complete for the stated L, plus seeded random long vectors with spare capacity; distinct by case text; non-trivial = length >= 2 and (an output was produced before the failure or an input remains after it)"},
+    "C10": {"run": run, "replay": replay, "level": "exploration", "assumptions": ASSUME,
+            "rule": "all 81 ordered pairs of 9 drop-recording element types (sizes 0,4,8,16; alignments 1,4,8,16; zero-size vs non-zero-size; same size with different alignment) x lengths 0..=L x spare capacity x both entry points; the 9 equal pairs are the controls that must be accepted; complete for the stated L; non-trivial = mismatching pair"},
+}
